@@ -68,6 +68,7 @@ theorem fieldScoreLaws : @ScoreLaws K (fieldScoreOps K) := by
     rw [le_div_iff₀ hd', one_mul]
     have : ((q.den : Int) : K) ≤ ((q.num : Int) : K) := Int.cast_le.mpr h
     simpa using this
+  · intro a b c h; exact sub_le_sub_left h c
 
 end
 
